@@ -105,15 +105,17 @@ def real_state(w):
         return ("other", type(x).__name__)
 
     out = []
-    for name in sorted(vars(S.TrueSingleton)):
-        if name.startswith("__") and name.endswith("__"):
-            continue
-        val = vars(S.TrueSingleton)[name]
-        if isinstance(val, (types.FunctionType, types.MethodType, classmethod, staticmethod, property)):
-            continue
-        if callable(val) and not isinstance(val, type):
-            continue
-        out.append((name, cv(val)))
+    # the metaclass itself and every class of the pool (a class may shadow the registry privately)
+    for hname, holder in [("TrueSingleton", S.TrueSingleton)] + list(zip(w.names, w.cls)):
+        for name in sorted(vars(holder)):
+            if name.startswith("__") and name.endswith("__"):
+                continue
+            val = vars(holder)[name]
+            if isinstance(val, (types.FunctionType, types.MethodType, classmethod, staticmethod, property)):
+                continue
+            if callable(val) and not isinstance(val, type):
+                continue
+            out.append((hname, name, cv(val)))
     return tuple(out)
 
 
@@ -126,6 +128,10 @@ def live_classes(w):
                 if k in w.cls:
                     live.add(w.names[w.cls.index(k)])
     return sorted(live)
+
+
+def dead_instances(w):
+    return [o for o in w.keep if not any(o is m for m in w.model)]
 
 
 class Sys:
@@ -181,6 +187,8 @@ class Sys:
                     w.step_bad.append("failing-init-did-not-propagate")
                 if any(o is m for m in w.model if m is not None):
                     w.step_bad.append("instance-shared-between-classes")
+                elif any(o is old for old in w.keep[:-1]):
+                    w.step_bad.append("cleared-instance-returned-again")
                 if type(o) is not w.cls[c]:
                     w.step_bad.append("returned-object-is-not-instance-of-called-class")
                 expect_runs = 1
